@@ -408,7 +408,7 @@ pub fn cases_c14(run_seed: u64, _tier: &str, _scratch: &str) -> Vec<Value> {
     if api == "set_password" && sw.chance(4, 5) {
         // package sizes around the 16-byte block and the 4096-byte segment
         let base = [0u64, 1, 15, 16, 17, 4095, 4096, 4097, 8191, 8192, 8193, 12287, 12288, 12289][sw.usize(14)];
-        let len = if sw.chance(1, 4) { let n = 1 + sw.below(6); n * 4096 + [0u64, 1, 4095][sw.usize(3)] } else { base };
+        let len = if sw.chance(1, 4) { let big = sw.chance(1, 4); let n = 1 + sw.below(if big { 40 } else { 6 }); n * 4096 + [0u64, 1, 4095, 16, 4080][sw.usize(5)] } else { base };
         c["raw_len"] = json!(len);
         c["ops"] = json!([]);
     } else {
